@@ -4,17 +4,19 @@ import Proofs.Ledger.Determinism
 
 Model: `PocketModel/Ledger/Determinism.lean` (map-iteration order and wall clock as an explicit
 `Oracle`), `PocketModel/Store/Iavl.lean` (tree shape).  Lemmas: `Proofs/Ledger/Determinism.lean`.
+The model follows the code as it is now (/repo a983e96, 286039a, 5a9379c).
 
 * `block_indep_of_oracles` / `history_indep_of_oracles`: code whose map-range sites are
   order-invariant and whose clock reads do not reach the state computes the same state for all
   oracles — assembled from the per-site lemmas `site_fold_comm`, `site_sorted_before_use`,
   `site_any`, `site_all`, `site_lookup` (each classified site of `checks/facts/C12.expected.json`
   names the lemma that discharges it).
-* `SplitNodeRewards`: `normalize_order_indep`, `split_perm_balances` (ledger level: order
-  independent); **store level not**: `iavl_insert_order_matters`, `split_perm_apphash_fails`,
-  `genesis_map_order_apphash_fails`.
-* `ValidateUnjailMessage`: `unjail_depends_on_now` (false as it is), `unjail_indep_of_now_partial`,
-  `unjail_fixed_indep`.
+* The three sites that used to be defects are now oracle-free **at store level** (any `pay` /
+  `write` function, tree shape included): `normalize_sorted_indep`, `split_order_indep`,
+  `rewardSite_oracleFree`, `genesisSite_oracleFree`, `unjailSite_oracleFree`, and together
+  `consensus_sites_indep`.
+* Last section, *Historical*: the counterexamples for the code before the fixes
+  (`historical_…`), kept as regression witnesses of what the harness must detect on a revert.
 -/
 namespace C12
 open Determinism
@@ -107,8 +109,89 @@ theorem split_perm_balances [DecidableEq A] (rewards : Int) (primary : A) {es es
 
 example : splitNodeRewards 1000 (9 : Nat) [(some 1, 10), (some 2, 25)] = some [(1, 100), (2, 250), (9, 650)] := by decide
 
-/-- As a range site over the ledger (balances), the reward split is oracle-free. -/
-theorem rewardSite_oracleFree [DecidableEq A] (site : Nat) (rewards : Int) (primary : A)
+/-- `NormalizeRewardDelegators` as it is now: the slice handed to `SplitNodeRewards` is the same for
+every iteration order (delegator keys decoding to pairwise distinct addresses). -/
+theorem normalize_sorted_indep (le : A → A → Bool) (ho : TotalOrder le) {es es' : List (Option A × Nat)}
+    (hnd : ((es.filterMap strip).map (·.1)).Nodup) (h : es.Perm es') :
+    normalizeSorted le es = normalizeSorted le es' := normalizeSorted_perm_eq le ho hnd h
+
+/-- **`split_order_indep`**: the *sequence* of payments (recipients, amounts, order) made by
+`SplitNodeRewards` does not depend on the map iteration order — hence nothing computed from it does:
+balances, account-creation order, tree shape, app hash. -/
+theorem split_order_indep (le : A → A → Bool) (ho : TotalOrder le) (rewards : Int) (primary : A)
+    {es es' : List (Option A × Nat)} (hnd : ((es.filterMap strip).map (·.1)).Nodup) (h : es.Perm es') :
+    splitNodeRewardsSorted le rewards primary es = splitNodeRewardsSorted le rewards primary es' :=
+  splitNodeRewardsSorted_perm_eq le ho rewards primary hnd h
+
+theorem natLe_totalOrder : TotalOrder (fun a b : Nat => decide (a ≤ b)) :=
+  ⟨fun a b c h1 h2 => by simp at *; omega, fun a b => by simp; omega, fun a b h1 h2 => by simp at *; omega⟩
+
+/-- The reward split as a range site is oracle-free **for every way `pay` turns the payment
+sequence into state** (in particular for the account tree with its shape). -/
+theorem rewardSite_oracleFree {σ : Type} (site : Nat) (le : A → A → Bool) (ho : TotalOrder le) (rewards : Int)
+    (primary : A) (delegators : σ → List (Option A × Nat)) (pay : List (A × Int) → σ → σ)
+    (hnd : ∀ s, (((delegators s).filterMap strip).map (·.1)).Nodup) :
+    (rewardSite site le rewards primary delegators pay).OracleFree := by
+  intro s l hl
+  have hnd' : ((l.filterMap strip).map (·.1)).Nodup :=
+    (((hl.filterMap strip).map (·.1)).nodup_iff).mpr (hnd s)
+  simp only [split_order_indep le ho rewards primary hnd' hl]
+
+/-- `InitGenesis` over a genesis map (distinct keys, sorted before the records are written) is
+oracle-free for every `write`, tree shape included. -/
+theorem genesisSite_oracleFree {σ κ β : Type} (site : Nat) (le : κ → κ → Bool) (ho : TotalOrder le)
+    (entries : σ → List (κ × β)) (write : List (κ × β) → σ → σ) (hnd : ∀ s, ((entries s).map (·.1)).Nodup) :
+    (genesisSite site le entries write).OracleFree := by
+  intro s l hl
+  have hnd' : (l.map (·.1)).Nodup := ((hl.map (·.1)).nodup_iff).mpr (hnd s)
+  simp only [sortedEntries, sortByKey_perm_eq le ho hnd' hl]
+
+/-- The unjail check contains no clock read: it is ordinary deterministic code. -/
+theorem unjailSite_oracleFree {σ : Type} (blockTime jailedUntil : Int) (apply : Bool → σ → σ) :
+    (unjailSite blockTime jailedUntil apply).OracleFree := trivial
+
+/-- **`unjail_indep_of_now`**: for all oracles (in particular all wall clocks) the unjail decision
+is the same. -/
+theorem unjail_indep_of_now {σ : Type} (ω ω' : Oracle) (blockTime jailedUntil : Int) (apply : Bool → σ → σ) (s : σ) :
+    (unjailSite blockTime jailedUntil apply).run ω s = (unjailSite blockTime jailedUntil apply).run ω' s := rfl
+
+/-- **`consensus_sites_indep`**: a block made of arbitrary deterministic code, reward splits,
+genesis-map writes and unjail checks — at store level — computes the same state for all oracles. -/
+theorem consensus_sites_indep {σ κ β : Type} (leA : A → A → Bool) (hA : TotalOrder leA) (leK : κ → κ → Bool)
+    (hK : TotalOrder leK) (code₁ code₂ : σ → σ) (rewards : Int) (primary : A)
+    (delegators : σ → List (Option A × Nat)) (pay : List (A × Int) → σ → σ)
+    (hd : ∀ s, (((delegators s).filterMap strip).map (·.1)).Nodup)
+    (entries : σ → List (κ × β)) (write : List (κ × β) → σ → σ) (he : ∀ s, ((entries s).map (·.1)).Nodup)
+    (blockTime jailedUntil : Int) (apply : Bool → σ → σ)
+    (ω ω' : Oracle) (hω : ω.IsPerm) (hω' : ω'.IsPerm) (s : σ) :
+    let block : Prog σ :=
+      .seq (genesisSite 1 leK entries write)
+        (.seq (.pure code₁)
+          (.seq (rewardSite 2 leA rewards primary delegators pay)
+            (.seq (unjailSite blockTime jailedUntil apply) (.pure code₂))))
+    block.run ω s = block.run ω' s := by
+  intro block
+  apply block_indep_of_oracles block _ ω ω' hω hω'
+  exact ⟨genesisSite_oracleFree 1 leK hK entries write he, trivial,
+    rewardSite_oracleFree 2 leA hA rewards primary delegators pay hd, trivial, trivial⟩
+
+/-- Store level, concretely: paying two new delegator accounts through the sorted split gives the
+same account tree for both iteration orders (compare `historical_split_perm_apphash_fails`). -/
+example :
+    (splitNodeRewardsSorted (fun a b : Nat => decide (a ≤ b)) 1000 9 [(some 5, 10), (some 12, 10)]) =
+    (splitNodeRewardsSorted (fun a b : Nat => decide (a ≤ b)) 1000 9 [(some 12, 10), (some 5, 10)]) :=
+  split_order_indep _ natLe_totalOrder 1000 9 (by decide) (List.Perm.swap ..)
+
+/-! ## Historical: the code before a983e96 / 286039a / 5a9379c
+
+Counterexamples that held of the code as it was (payments in map order, `time.Now()` in
+`ValidateUnjailMessage`, `InitGenesis` ranging over the maps directly).  They are about the old
+definitions `normalize`, `splitNodeRewards`, `payTree` over an arbitrary order, `unjailAsIs`; the
+repeat-run harness reproduces each of them when the corresponding fix is reverted. -/
+
+/-- Ledger level was always order independent: as a range site over balances the *old* split is
+oracle-free. -/
+theorem historical_rewardSite_balances_oracleFree [DecidableEq A] (site : Nat) (rewards : Int) (primary : A)
     (dels : (A → Int) → List (Option A × Nat)) :
     Prog.OracleFree (.range site dels (fun l bal =>
       match splitNodeRewards rewards primary l with
@@ -126,54 +209,38 @@ theorem rewardSite_oracleFree [DecidableEq A] (site : Nat) (rewards : Int) (prim
     | none => simp [e1, e2] at h1
     | some ps' => simp only [e1, e2]; exact h2 ps ps' e1 e2 bal
 
-/-! ## Store level: tree shape depends on insertion order -/
-
 open Iavl in
 /-- The account tree `{0a, 14, 1e}` (three existing accounts). -/
 def t3 : Iavl.Node :=
   (Node.recursiveSet 1 (Node.recursiveSet 1 (Node.leaf [10] [1] 1) [20] [1]).1 [30] [1]).1
 
-/-- **`iavl_insert_order_matters`**: inserting two new keys in the two possible orders gives two
-different trees (hence two different root hashes) although the contents are the same. -/
+/-- Inserting two new keys in the two possible orders gives two different trees (hence two
+different root hashes) although the contents are the same — why order had to be fixed. -/
 theorem iavl_insert_order_matters :
     ∃ (t : Iavl.Node) (a b : Bytes),
       (Iavl.Node.recursiveSet 2 (Iavl.Node.recursiveSet 2 t a [1]).1 b [1]).1 ≠
       (Iavl.Node.recursiveSet 2 (Iavl.Node.recursiveSet 2 t b [1]).1 a [1]).1 :=
   ⟨t3, [5], [12], by decide⟩
 
-/-- **`split_perm_apphash_fails`**: one reward paid to two delegators whose accounts do not exist
-yet: the two iteration orders of the delegator map produce the same balances
-(`split_perm_balances`) but different account trees. -/
-theorem split_perm_apphash_fails :
+/-- Before a983e96: payments in map order ⇒ same balances, different account trees. -/
+theorem historical_split_perm_apphash_fails :
     ∃ (t : Iavl.Node) (ps ps' : List (Bytes × Bytes)), ps.Perm ps' ∧ payTree 2 t ps ≠ payTree 2 t ps' :=
   ⟨t3, [([5], [1]), ([12], [1])], [([12], [1]), ([5], [1])], List.Perm.swap .., by decide⟩
 
-/-- The same for `InitGenesis`: signing-info records written in map order. -/
-theorem genesis_map_order_apphash_fails :
+/-- Before 5a9379c: signing-info records written in map order. -/
+theorem historical_genesis_map_order_apphash_fails :
     ∃ (t : Iavl.Node) (entries entries' : List (Bytes × Bytes)), entries.Perm entries' ∧
       payTree 1 t entries ≠ payTree 1 t entries' :=
   ⟨t3, [([5], [1]), ([12], [1])], [([12], [1]), ([5], [1])], List.Perm.swap .., by decide⟩
 
-/-! ## Unjail and the wall clock -/
-
-/-- **`unjail_depends_on_now`**: `JailedUntil` between a lagging node's clock and the block time. -/
-theorem unjail_depends_on_now :
+/-- Before 286039a: `JailedUntil` between a lagging node's clock and the block time. -/
+theorem historical_unjail_depends_on_now :
     ∃ blockTime jailedUntil now now' : Int, unjailAsIs now blockTime jailedUntil ≠ unjailAsIs now' blockTime jailedUntil :=
   ⟨100, 100, 99, 101, by decide⟩
 
-/-- The check as it is does not depend on the clock of nodes whose clock is not behind the block
-time — the excluded point is exactly a local clock behind the block's timestamp. -/
-theorem unjail_indep_of_now_partial (now now' blockTime jailedUntil : Int) (h : blockTime ≤ now) (h' : blockTime ≤ now') :
-    unjailAsIs now blockTime jailedUntil = unjailAsIs now' blockTime jailedUntil := by
-  unfold unjailAsIs
-  by_cases hb : blockTime < jailedUntil
-  · simp [hb]
-  · have h1 : ¬ jailedUntil > now := by omega
-    have h2 : ¬ jailedUntil > now' := by omega
-    simp [hb, h1, h2]
-
-/-- On such nodes it equals the repaired check, which has no clock argument at all. -/
-theorem unjail_fixed_indep (now blockTime jailedUntil : Int) (h : blockTime ≤ now) :
+/-- The old check agreed with the present one on every node whose clock was not behind the block
+time: the fix changed no outcome on such nodes. -/
+theorem historical_unjail_fixed_agrees (now blockTime jailedUntil : Int) (h : blockTime ≤ now) :
     unjailAsIs now blockTime jailedUntil = unjailFixed blockTime jailedUntil := by
   unfold unjailAsIs unjailFixed
   by_cases hb : blockTime < jailedUntil
@@ -181,16 +248,11 @@ theorem unjail_fixed_indep (now blockTime jailedUntil : Int) (h : blockTime ≤ 
   · have h1 : ¬ jailedUntil > now := by omega
     simp [hb, h1]
 
-/-- As program nodes: the as-is check is not oracle-free, the repaired one is. -/
-theorem unjailSite_asis_not_oracleFree :
+theorem historical_unjailSite_not_oracleFree :
     ¬ Prog.OracleFree (σ := Bool) (.clock (fun now _ => unjailAsIs now 100 100)) := by
   intro h
   have := h 99 101 true
   revert this
   decide
-
-theorem unjailSite_fixed_oracleFree (blockTime jailedUntil : Int) :
-    Prog.OracleFree (σ := Bool) (.clock (fun _ _ => unjailFixed blockTime jailedUntil)) :=
-  fun _ _ _ => rfl
 
 end C12
